@@ -431,14 +431,14 @@ pub fn property() -> Property {
             }),
             Box::new(Gen::<MultiFaultCase> {
                 name: "multi",
-                rule: "C02 MultiProgress histories (incl. set_tab_width, mp.suspend, bar.suspend, mp.println, mp.clear, drop and final teardown) x the same fault plans; additionally mp.println/mp.clear must return Err when a terminal call failed during them, and sibling bars must keep working",
+                rule: "C02 MultiProgress histories (incl. set_tab_width, mp.suspend, bar.suspend, mp.println, mp.clear, drop and final teardown) x the same fault plans; a line printed through a member during a caught panic followed by mp.println; additionally mp.println/mp.clear must return Err when a terminal call failed during them, and sibling bars must keep working",
                 strategy: |t| {
-                    (crate::props::c02::history_strategy(t), fault_strategy(), proptest::collection::vec((any::<u16>(), any::<u16>()), 0..3), 0u8..8)
-                        .prop_map(|(mut multi, fault, detaches, shape)| {
+                    (crate::props::c02::history_strategy(t), fault_strategy(), proptest::collection::vec((any::<u16>(), any::<u16>()), 0..3), 0u8..8, proptest::collection::vec((any::<u16>(), any::<u16>()), 0..2))
+                        .prop_map(|(mut multi, fault, detaches, shape, unwinds)| {
                             // a quarter of the cases start with a bottom-aligned group of 3-4 drawn bars that is then
                             // cleared or shrunk in one draw (several blank rows are written by that single call)
                             if shape < 2 {
-                                let bar = BarSpec { two_lines: false, len: Some(5), on_finish: 0, msg: String::new() };
+                                let bar = BarSpec { two_lines: false, len: Some(5), on_finish: 0, msg: String::new(), key_nl: false };
                                 let mut pre = vec![MOp::SetAlignment(true)];
                                 let n = 3 + shape as usize;
                                 for k in 0..n {
@@ -457,6 +457,13 @@ pub fn property() -> Property {
                             for (pos, sel) in detaches {
                                 let at = pick(pos, multi.ops.len() + 1);
                                 multi.ops.insert(at, MOp::Detach(sel));
+                            }
+                            // a line printed through a member while its thread unwinds stays pending until the next
+                            // draw; here that draw is an mp.println, which has to report a failure of either text
+                            for (pos, sel) in unwinds {
+                                let at = pick(pos, multi.ops.len() + 1);
+                                multi.ops.insert(at, MOp::MpPrintln("z".into()));
+                                multi.ops.insert(at, MOp::BarPrintlnUnwinding(sel, "q".into()));
                             }
                             MultiFaultCase { multi, fault }
                         })
